@@ -299,6 +299,25 @@ func optAttr(as []attr, k string, v *string) []attr {
 	return as
 }
 
+// twins writes the foreign-namespace namesakes the logical assertion asks for after element of.
+func (w *xw) twins(a *LAssertion, of string) {
+	for _, tw := range a.Twins {
+		if tw.Of != of {
+			continue
+		}
+		var as []attr
+		for _, kv := range tw.Attrs {
+			as = append(as, attr{kv[0], kv[1]})
+		}
+		w.nl()
+		if tw.Text == "" {
+			w.open("ft:"+of, []attr{{"xmlns:ft", "urn:example:not-saml"}}, as, true)
+		} else {
+			w.textEl("ft:"+of, []attr{{"xmlns:ft", "urn:example:not-saml"}}, as, tw.Text)
+		}
+	}
+}
+
 func (w *xw) assertion(a *LAssertion, st nsStyle, standalone bool) {
 	A := st.a
 	var ns []attr
@@ -332,6 +351,7 @@ func (w *xw) assertion(a *LAssertion, st nsStyle, standalone bool) {
 				na = []attr{{"Format", "urn:oasis:names:tc:SAML:1.1:nameid-format:unspecified"}, {"SPNameQualifier", "sp & \"qualifier\""}}
 			}
 			w.textEl(A+"NameID", nil, na, *a.NameID)
+			w.twins(a, "NameID")
 		}
 		if a.HasSubjConf {
 			w.nl()
@@ -352,6 +372,7 @@ func (w *xw) assertion(a *LAssertion, st nsStyle, standalone bool) {
 					scdNS = []attr{{"xmlns:x500", "urn:oasis:names:tc:SAML:2.0:profiles:attribute:X500"}}
 				}
 				w.open(A+"SubjectConfirmationData", scdNS, sa, true)
+				w.twins(a, "SubjectConfirmationData")
 				w.depth--
 				w.nl()
 				w.close(A + "SubjectConfirmation")
@@ -360,6 +381,7 @@ func (w *xw) assertion(a *LAssertion, st nsStyle, standalone bool) {
 		w.depth--
 		w.nl()
 		w.close(A + "Subject")
+		w.twins(a, "Subject")
 	}
 	if a.HasConditions {
 		w.nl()
@@ -390,7 +412,11 @@ func (w *xw) assertion(a *LAssertion, st nsStyle, standalone bool) {
 			}
 			if a.Proxy != nil {
 				w.nl()
-				w.open(A+"ProxyRestriction", nil, []attr{{"Count", fmt.Sprint(a.Proxy.Count)}}, len(a.Proxy.Audiences) == 0)
+				cnt := fmt.Sprint(a.Proxy.Count)
+				if a.Proxy.CountLit != "" {
+					cnt = a.Proxy.CountLit
+				}
+				w.open(A+"ProxyRestriction", nil, []attr{{"Count", cnt}}, len(a.Proxy.Audiences) == 0)
 				if len(a.Proxy.Audiences) > 0 {
 					w.depth++
 					for _, au := range a.Proxy.Audiences {
@@ -406,6 +432,7 @@ func (w *xw) assertion(a *LAssertion, st nsStyle, standalone bool) {
 			w.nl()
 			w.close(A + "Conditions")
 		}
+		w.twins(a, "Conditions")
 	}
 	if w.l.Extras {
 		w.nl()
@@ -439,6 +466,7 @@ func (w *xw) assertion(a *LAssertion, st nsStyle, standalone bool) {
 			w.nl()
 			w.close(A + "AuthnStatement")
 		}
+		w.twins(a, "AuthnStatement")
 	}
 	if a.HasAttrStmt {
 		w.nl()
